@@ -132,6 +132,67 @@ pub struct Dlmalloc {
 
 unsafe impl Send for Dlmalloc {}
 
+/// Verification hook: allocator's own accounting figures
+#[cfg(feature = "verif-hooks")]
+#[derive(Debug, Copy, Clone, Default)]
+pub struct VerifStats {
+    pub footprint: usize,
+    pub max_footprint: usize,
+    pub topsize: usize,
+    pub dvsize: usize,
+    pub segments: usize,
+    pub segment_bytes: usize,
+    pub smallmap: u32,
+    pub treemap: u32,
+    pub release_checks: usize,
+}
+
+#[cfg(feature = "verif-hooks")]
+impl Dlmalloc {
+    #[must_use]
+    pub fn verif_stats(&self) -> VerifStats {
+        let mut segments = 0;
+        let mut segment_bytes = 0;
+        unsafe {
+            let mut sp: *const Segment = &self.seg;
+            while !sp.is_null() {
+                if !(*sp).base.is_null() {
+                    segments += 1;
+                    segment_bytes += (*sp).size;
+                }
+                sp = (*sp).next;
+            }
+        }
+        VerifStats {
+            footprint: self.footprint,
+            max_footprint: self.max_footprint,
+            topsize: self.topsize,
+            dvsize: self.dvsize,
+            segments,
+            segment_bytes,
+            smallmap: self.smallmap,
+            treemap: self.treemap,
+            release_checks: self.release_checks,
+        }
+    }
+
+    /// Runs the built-in invariant walker (a no-op without debug assertions).
+    /// Returns whether it actually ran.
+    /// # Safety
+    /// No allocator call may be in progress on this instance.
+    pub unsafe fn verif_check(&mut self) -> bool {
+        #[cfg(debug_assertions)]
+        {
+            self.check_malloc_state();
+            true
+        }
+        #[cfg(not(debug_assertions))]
+        {
+            false
+        }
+    }
+}
+
 // TODO: document this
 const NSMALLBINS: usize = 32;
 const NTREEBINS: usize = 32;
